@@ -162,8 +162,28 @@ def _run_entry(det, pipe, ro, entry):
         with warnings.catch_warnings():
             warnings.simplefilter("ignore")
             _run_exposure_pipeline_deprecated(processor=Processor(detector=det, pipeline=pipe), readout=ro)
+    elif entry in ("observation", "observation_dask"):
+        raise RuntimeError("observation entries are run by _run_observation")
     else:
         raise RuntimeError(f"unknown entry {entry}")
+
+
+def _run_observation(det, pipe, ro, p):
+    """pyxel.run_mode(Observation) sweeping a detector attribute (each run = the same readout on a deep copy of
+    the detector) or `observation.readout.times` (each run = readout.replace(times=<value>))."""
+    import dask
+    import pyxel
+    from pyxel.observation import Observation, ParameterValues
+
+    sw = p["sweep"]
+    key = {"temperature": "detector.environment.temperature", "times": "observation.readout.times"}[sw["key"]]
+    vals = [float(v) if sw["key"] == "temperature" else _f(v) for v in sw["values"]]
+    obs = Observation(parameters=[ParameterValues(key=key, values=vals)], readout=ro, mode=sw.get("mode", "product"),
+                      with_dask=(p["entry"] == "observation_dask"))
+    with dask.config.set(scheduler=sw.get("scheduler", "synchronous")):
+        dt = pyxel.run_mode(obs, det, pipe, with_inherited_coords=True)
+        if p["entry"] == "observation_dask":
+            dt.compute()
 
 
 def _one_run(det, p, ro_prev):
@@ -221,13 +241,41 @@ def _one_run(det, p, ro_prev):
         return _exc(1, ex, pc.EXEC[0]), 1
     # --- run
     pipe = _pipeline(p.get("plan", []), p.get("wgroup", "charge_collection"))
+    is_obs = str(p.get("entry", "")).startswith("observation")
     try:
-        _run_entry(det, pipe, ro, p.get("entry"))
+        if is_obs:
+            _run_observation(det, pipe, ro, p)
+        else:
+            _run_entry(det, pipe, ro, p.get("entry"))
     except Exception as ex:  # noqa: BLE001
         return _exc(2, ex, pc.EXEC[0]), ro
-    log = list(pc.LOG)
+    if is_obs:
+        # one trace per detector copy, in order of first appearance (the copies run in any order / interleaved)
+        order, by = [], {}
+        for e in pc.LOG:
+            if e["det"] not in by:
+                by[e["det"]] = []
+                order.append(e["det"])
+            by[e["det"]].append(e)
+        groups = []
+        for k in order:
+            g = _trace(by[k])
+            if "driver_error" in g:
+                return g, ro
+            g["rp_times"] = by[k][0]["rp_times"]
+            groups.append(g)
+        return dict(stage=None, executed=int(pc.EXEC[0]), d0=d0, rp0=rp0, obs=[], groups=groups), ro
+    out = _trace(list(pc.LOG))
+    if "driver_error" in out:
+        return out, ro
+    out.update(stage=None, executed=int(pc.EXEC[0]), d0=d0, rp0=rp0)
+    return out, ro
+
+
+def _trace(log):
+    """Pair the first/last observations of each step; canonical clocks through both public paths."""
     if len(log) % 2 != 0:
-        return {"driver_error": "odd number of observations"}, ro
+        return {"driver_error": "odd number of observations"}
     FIELDS = ("time", "time_step", "absolute_time", "pipeline_count", "is_first_readout", "is_last_readout")
 
     def same(ca, cb):
@@ -246,17 +294,17 @@ def _one_run(det, p, ro_prev):
     for k in range(0, len(log), 2):
         a, b = log[k], log[k + 1]
         if a["where"] != "first" or b["where"] != "last":
-            return {"driver_error": f"probe order {a['where']}/{b['where']}"}, ro
+            return {"driver_error": f"probe order {a['where']}/{b['where']}"}
         if not same(a["clock"], b["clock"]) or not same(a["clock_rp"], b["clock_rp"]):
-            return {"driver_error": f"clock changed inside a step: {a['clock']} / {b['clock']}"}, ro
+            return {"driver_error": f"clock changed inside a step: {a['clock']} / {b['clock']}"}
         if not same(a["clock"], a["clock_rp"]):
             differ = True
         obs.append(dict(clock=canon(a["clock"]), begin=a["buckets"], end=b["buckets"]))
         obs_rp.append(dict(clock=canon(a["clock_rp"]), begin=a["buckets"], end=b["buckets"]))
-    out = dict(stage=None, executed=int(pc.EXEC[0]), d0=d0, rp0=rp0, obs=obs)
+    out = dict(obs=obs)
     if differ:
         out["obs_rp"] = obs_rp      # the two public views of the clock disagree: both are judged
-    return out, ro
+    return out
 
 
 def handle(p):
